@@ -82,7 +82,7 @@ def universe_for(n, okinds, dkinds, same_names=False):
             spec[f"O{i}{k}"] = ("origin", k)
         for k in dkinds:
             spec[f"D{i}{k}"] = ("dest", k)
-    return Universe(spec, namer=(lambda lab: "x") if same_names else None)
+    return Universe(spec, namer=(lambda lab: "x") if same_names is True else None, subclass=(same_names == "sub"))
 
 
 def build(U, n, edges, links, origins, dests, history):
@@ -239,6 +239,9 @@ def explore(tier, seed, nproc):
                 if n <= 2 or (n == 3 and m <= 2 and len(okinds) == 2):
                     items.append((n, edges, okinds, dkinds, sharing, True))
                     cnt += 1
+                    # ... and with every element an instance of a user-defined subclass of its class
+                    items.append((n, edges, okinds, dkinds, sharing, "sub"))
+                    cnt += 1
         bounds.append({"nodes": n, "max_links": mmax, "origin_kinds": okinds, "dest_kinds": dkinds,
                        "object_sharing": sharing, "edge_sets": cnt})
     # palettes: the seed rotates the order in which shards are dealt (coverage is identical)
@@ -262,7 +265,7 @@ def explore(tier, seed, nproc):
 
 
 def replay(case):
-    U = universe_for(case["n"], tuple(case["okinds"]), tuple(case["dkinds"]), bool(case.get("same_names")))
+    U = universe_for(case["n"], tuple(case["okinds"]), tuple(case["dkinds"]), case.get("same_names") or False)
     st = Stats()
     edges = tuple(tuple(e) for e in case["edges"])
     problems, valid, bad = check_one(U, case["n"], edges, tuple(case["links"]), tuple(case["origins"]),
